@@ -62,7 +62,9 @@ def source(doc, style, pos):
             f"{a() if pos == 'alias' else ''}#[typeshare]\npub type A = Vec<String>;\n"
             f"#[typeshare]\npub enum U {{\n{a('    ') if pos == 'uvariant' else ''}    One,\n    Two,\n}}\n"
             f"{a() if pos == 'tagged' else ''}#[typeshare]\n#[serde(tag = \"t\", content = \"c\")]\npub enum E {{\n{a('    ') if pos == 'variant' else ''}    N(u32),\n"
-            f"    Sv {{\n{a('        ') if pos == 'vfield' else ''}        x: u32,\n    }},\n}}\n")
+            f"    Sv {{\n{a('        ') if pos == 'vfield' else ''}        x: u32,\n    }},\n}}\n"
+            # a documented constant (only in the programs that put the text there: three backends refuse constants altogether)
+            + (f"{a()}#[typeshare]\npub const K_CONST: u32 = 3;\n" if pos == "const" else ""))
 
 
 def symbols(lang, text):
@@ -123,7 +125,7 @@ def harness_verdict(lang, text):
 def run(chk):
     thorough = chk.tier == "thorough"
     chk.rule = ("spec->impl: every doc text of up to " + ("3" if thorough else "2") + " tokens (MC_C15) x style {///, /** */, #[doc]} x position {type, field, variant, "
-                "struct-variant field, alias, unit-enum variant, tagged enum} x 6 languages; impl->spec: each generated file, abstracted to lexer symbols, judged by "
+                "struct-variant field, alias, unit-enum variant, tagged enum, constant (containment only)} x 6 languages; impl->spec: each generated file, abstracted to lexer symbols, judged by "
                 "Trace_C15 (DocText!Safe). distinct = (language, style, position, text).")
     chk.assumptions = ["every doc token is followed by a marker D<i>x; a marker met outside a comment state means the text before it left the comment",
                        "the symbol abstraction is stateless (longest match); the harness lexers are used only as a cross-check of the TLA+ lexers"]
@@ -140,7 +142,7 @@ def run(chk):
             if not usable(d["doc"], style):
                 continue
             company = style.endswith("_line")
-            for pos in (POSITIONS if (thorough or len(d["doc"]) == 1) and not company else POSITIONS[:4] + ["tagged"] if not company else ["type", "field", "variant"]):
+            for pos in (POSITIONS + ["const"] if (thorough or len(d["doc"]) == 1) and not company else POSITIONS[:4] + ["tagged", "const"] if not company else ["type", "field", "variant"]):
                 cases.append((d, style, pos))
     srcs = [source(d["doc"], style, pos) for d, style, pos in cases]
     results = observe.generate(srcs)
@@ -150,6 +152,8 @@ def run(chk):
             r = per[lang]
             if r["status"] in ("panic", "abort", "hang"):
                 continue
+            if r["status"] == "error" and pos == "const" and lang in ("kotlin", "swift", "scala"):
+                continue          # these backends generate no constants at all
             if r["status"] == "error":
                 chk.refused(f"{lang}/{style}", f"{lang}: documented program rejected ({style} style, {d['doc']}): {str(r['errors'])[:200]}", {"doc": d["doc"], "style": style, "pos": pos, "lang": lang})
                 continue
